@@ -187,10 +187,16 @@ def run(ctx):
     ctx.assumptions += ['prescribed adjoint drift (derived from the backward Stratonovich adjoint converted to Ito form): '
                         'a.df/dxi - [Ito, non-additive] sum a_i g_lj d2 g_ij / dy_l dxi;  state part -(f - sum_j (g_j.grad) g_j)']
     ctx.outside += ['degrees / sizes above the bound', 'float rounding']
+    check_fields(ctx)
+
+
+def check_fields(ctx, prefix='', sig_prefix='', extra=None):
+    """the adjoint-vector-field identities; also discharged by C09 as the lemma its convergence argument rests on"""
+    extra = extra or {}
     tasks = tasks_for(ctx.tier)
     ntw = 0
     for t, (st_, res) in zip(tasks, pmap(scenario, tasks)):
-        name = f"{t[0]},{t[1]} d={t[2]} m={t[3]} B={t[4]}"
+        name = f"{prefix}{t[0]},{t[1]} d={t[2]} m={t[3]} B={t[4]}"
         if st_ != 'ok':
             ctx.inconc(name, str(res)[:600]); continue
         ctx.paths += 1; ctx.queries += len(res['results']); ctx.solver_s += res['solver_s']; ctx.validated += 1
@@ -198,15 +204,15 @@ def run(ctx):
         ctx.sample({'scenario': name, 'identities': len(res['results'])})
         bad = [r for r in res['results'] if r[1] != 'unsat']
         for n in res['notes']:
-            ctx.violation(f"{t[0]},{t[1]}|graph|{n.split(':')[0]}", n, replay=dict(task=list(t), graph=True))
+            ctx.violation(f"{sig_prefix}{t[0]},{t[1]}|graph|{n.split(':')[0]}", n, replay=dict(task=list(t), graph=True, **extra))
         if not bad:
             ctx.ok(name, f"{len(res['results'])} identities"); continue
         n, r, m = bad[0]
         if r in ('unknown',):
             ctx.inconc(name, f'{n}: {r}'); continue
-        ctx.violation(f"{t[0]},{t[1]}|{n.split('[')[0]}", f"adjoint vector field {n} differs from the prescribed quantity ({r})",
-                      replay=dict(task=list(t), which=n, model=m))
-    ctx.twin('twin', ntw == len(tasks))
+        ctx.violation(f"{sig_prefix}{t[0]},{t[1]}|{n.split('[')[0]}", f"adjoint vector field {n} differs from the prescribed quantity ({r})",
+                      replay=dict(task=list(t), which=n, model=m, **extra))
+    ctx.twin(f'{prefix}twin', ntw == len(tasks))
 
 
 def replay(data):
